@@ -25,6 +25,9 @@ pub enum Progress {
     MidLogin,
     /// everything sent, waiting for the backend (discovery) when shutdown is requested
     WaitingBackend,
+    /// PROXY protocol only: accepted, but the PROXY header is still outstanding when shutdown is requested; it
+    /// follows after this fraction (x/255) of 85 % of the connection timeout, then the client logs in
+    BeforeProxyHeader(u8),
 }
 
 #[derive(Clone, Debug, Serialize, Deserialize)]
@@ -39,6 +42,9 @@ pub struct Case {
     /// right before the shutdown request, so that the runtime is busy when it arrives
     #[serde(default)]
     pub busy: u8,
+    /// PROXY protocol enabled (every client sends a header first)
+    #[serde(default)]
+    pub proxy: bool,
 }
 
 pub struct C17;
@@ -46,6 +52,7 @@ pub struct C17;
 const T: Duration = Duration::from_secs(5);
 
 enum Client {
+    Headerless(NetClient),
     Fresh(NetClient),
     Status(NetClient),
     Login(NetClient),
@@ -74,19 +81,34 @@ fn await_transfer(c: &mut NetClient) -> Result<(), String> {
 }
 
 fn decide(case: &Case, info: &mut CaseInfo) -> Verdict {
-    let timeout = Duration::from_secs(4);
-    let cfg = ListenerCfg { timeout, ..Default::default() };
-    let run = net::start_listener(&cfg, NetScript { discovery_ms: Some(case.discovery_ms), ..Default::default() }, usize::from(case.workers.max(1)));
+    let late_header = case.proxy && case.inflight.iter().any(|p| matches!(p, Progress::BeforeProxyHeader(_)));
+    // the header phase and the protocol phase each get the connection timeout; keep it short when a client uses both
+    let timeout = if late_header { Duration::from_millis(1500) } else { Duration::from_secs(4) };
+    let discovery_ms = if late_header { case.discovery_ms.max(600) } else { case.discovery_ms };
+    let cfg = ListenerCfg { timeout, proxy: case.proxy.then_some((true, true)), ..Default::default() };
+    let run = net::start_listener(&cfg, NetScript { discovery_ms: Some(discovery_ms), ..Default::default() }, usize::from(case.workers.max(1)));
     let port = run.port;
+    let counter = std::sync::atomic::AtomicU16::new(0);
+    // connects and (with PROXY protocol) sends the header
+    let connect = |with_header: bool| -> std::io::Result<NetClient> {
+        let mut c = NetClient::connect(port)?;
+        if case.proxy && with_header {
+            let n = counter.fetch_add(1, std::sync::atomic::Ordering::Relaxed) + 1;
+            let src: std::net::SocketAddr = format!("198.51.100.{}:{}", 1 + n % 200, 20000 + n).parse().unwrap();
+            c.write_raw(&net::proxy_v2(src, format!("127.0.0.1:{port}").parse().unwrap()))?;
+        }
+        Ok(c)
+    };
     // drive the in-flight clients to their progress points
     let mut clients: Vec<Client> = Vec::new();
     for p in &case.inflight {
-        let Ok(mut c) = NetClient::connect(port) else {
+        let Ok(mut c) = connect(!matches!(p, Progress::BeforeProxyHeader(_))) else {
             run.shutdown();
             return Verdict::Inconclusive("connect failed before shutdown".into());
         };
         let r: Result<Client, String> = (|| match p {
-            Progress::JustAccepted => Ok(Client::Fresh(c)),
+            Progress::BeforeProxyHeader(_) if case.proxy => Ok(Client::Headerless(c)),
+            Progress::JustAccepted | Progress::BeforeProxyHeader(_) => Ok(Client::Fresh(c)),
             Progress::MidStatus => {
                 c.phase = crate::refcodec::Phase::Status;
                 c.send(&Pkt::Handshake { protocol: 770, host: "h".into(), port: 25565, next: 1 }).map_err(|e| e.to_string())?;
@@ -124,7 +146,7 @@ fn decide(case: &Case, info: &mut CaseInfo) -> Verdict {
     // clients that keep the runtime busy at the moment of the shutdown request
     let mut busy_clients: Vec<(NetClient, Pkt)> = Vec::new();
     for _ in 0..case.busy {
-        let Ok(mut c) = NetClient::connect(port) else { break };
+        let Ok(mut c) = connect(true) else { break };
         let r: Result<Pkt, String> = (|| {
             c.send(&Pkt::Handshake { protocol: 770, host: "h".into(), port: 25565, next: 2 }).map_err(|e| e.to_string())?;
             c.send(&Pkt::LoginStart { name: "Busy".into(), uuid: uuid::Uuid::from_u128(18) }).map_err(|e| e.to_string())?;
@@ -154,65 +176,99 @@ fn decide(case: &Case, info: &mut CaseInfo) -> Verdict {
     run.stop.cancel();
     let cancelled_at = Instant::now();
 
-    // ---- late clients
-    let mut late_served: Option<String> = None;
-    if case.late_gap_us > 0 {
-        let until = cancelled_at + Duration::from_micros(u64::from(case.late_gap_us));
-        while Instant::now() < until {
-            std::hint::spin_loop();
-        }
-    }
-    let mut late_clients = Vec::new();
-    for _ in 0..case.late {
-        if let Ok(c) = NetClient::connect(port) {
-            late_clients.push(c);
-        }
-    }
-    for (i, c) in late_clients.iter_mut().enumerate() {
-        let r = c.status_exchange("late.example.org", Duration::from_millis(400));
-        if c.received > 0 || r.is_ok() {
-            late_served = Some(format!("late client #{i} (connected after cancel() had returned, gap {} us) received {} bytes: {:?}", case.late_gap_us, c.received, r));
-        }
-    }
-
-    // the busy clients leave (they are not cooperating clients: they never finish their login)
-    drop(busy_clients);
-
-    // ---- in-flight clients continue and must get their normal outcome
+    // ---- late clients and in-flight clients proceed concurrently (each on its own thread)
+    let inflight_progress = case.inflight.clone();
+    let (late_served, results): (Option<String>, Vec<(usize, Result<(), String>, Option<Instant>)>) = std::thread::scope(|scope| {
+        let connect = &connect;
+        let late = scope.spawn(move || {
+            let mut late_served: Option<String> = None;
+            if case.late_gap_us > 0 {
+                let until = cancelled_at + Duration::from_micros(u64::from(case.late_gap_us));
+                while Instant::now() < until {
+                    std::hint::spin_loop();
+                }
+            }
+            let mut late_clients = Vec::new();
+            for _ in 0..case.late {
+                if let Ok(c) = connect(true) {
+                    late_clients.push(c);
+                }
+            }
+            for (i, c) in late_clients.iter_mut().enumerate() {
+                let r = c.status_exchange("late.example.org", Duration::from_millis(400));
+                if c.received > 0 || r.is_ok() {
+                    late_served = Some(format!("late client #{i} (connected after cancel() had returned, gap {} us) received {} bytes: {:?}", case.late_gap_us, c.received, r));
+                }
+            }
+            late_served
+        });
+        // the busy clients leave (they are not cooperating clients: they never finish their login)
+        drop(busy_clients);
+        let handles: Vec<_> = clients
+            .into_iter()
+            .enumerate()
+            .map(|(i, cl)| {
+                let progress = inflight_progress[i].clone();
+                scope.spawn(move || {
+                    let mut due_at: Option<Instant> = None;
+                    let r: Result<(), String> = match cl {
+                        Client::Headerless(mut c) => (|| {
+                            let frac = match &progress {
+                                Progress::BeforeProxyHeader(f) => u64::from(*f),
+                                _ => 0,
+                            };
+                            let at = cancelled_at + Duration::from_millis(timeout.as_millis() as u64 * 85 / 100 * frac / 255);
+                            while Instant::now() < at {
+                                std::thread::sleep(Duration::from_millis(5));
+                            }
+                            let src: std::net::SocketAddr = format!("198.51.100.250:{}", 4242 + i).parse().unwrap();
+                            c.write_raw(&net::proxy_v2(src, format!("127.0.0.1:{port}").parse().unwrap())).map_err(|e| e.to_string())?;
+                            c.login_until_success(2, "LateHeader", None, T).map_err(|e| format!("login after a late PROXY header: {e:?}"))?;
+                            finish_login(&mut c)?;
+                            due_at = Some(Instant::now() + Duration::from_millis(discovery_ms));
+                            await_transfer(&mut c)
+                        })(),
+                        Client::Fresh(mut c) => c.status_exchange("fresh.example.org", T).map_err(|e| format!("status exchange of an accepted connection failed: {e:?}")),
+                        Client::Status(mut c) => {
+                            let _ = c.send(&Pkt::StatusPing { payload: 9 });
+                            match c.recv(T) {
+                                Ok(Pkt::StatusPong { payload: 9 }) => Ok(()),
+                                other => Err(format!("pong missing: {other:?}")),
+                            }
+                        }
+                        Client::Login(mut c) => (|| {
+                            let secret16: [u8; 16] = *b"net-shared-secre";
+                            let (key, token, _) = c.enc_req.clone().ok_or("no encryption request")?;
+                            let key = crate::refcrypto::RsaPub::from_spki_der(&key).ok_or("key")?;
+                            let resp = Pkt::EncryptionResponse { secret: key.encrypt_pkcs1(&secret16, &[7]).unwrap(), token: key.encrypt_pkcs1(&token, &[7]).unwrap() };
+                            c.send(&resp).map_err(|e| e.to_string())?;
+                            c.enable_encryption(&secret16);
+                            match c.recv(T) {
+                                Ok(Pkt::LoginSuccess { .. }) => {}
+                                other => return Err(format!("login success missing: {other:?}")),
+                            }
+                            finish_login(&mut c)?;
+                            due_at = Some(Instant::now() + Duration::from_millis(discovery_ms));
+                            await_transfer(&mut c)
+                        })(),
+                        Client::Waiting(mut c, since) => {
+                            due_at = Some(since + Duration::from_millis(discovery_ms));
+                            await_transfer(&mut c)
+                        }
+                    };
+                    (i, r, due_at)
+                })
+            })
+            .collect();
+        let results = handles.into_iter().map(|h| h.join().expect("client thread")).collect();
+        (late.join().expect("late thread"), results)
+    });
     let mut last_backend_due: Option<Instant> = None;
     let mut failure: Option<String> = None;
-    for (i, cl) in clients.into_iter().enumerate() {
-        let r: Result<(), String> = match cl {
-            Client::Fresh(mut c) => c.status_exchange("fresh.example.org", T).map_err(|e| format!("status exchange of an accepted connection failed: {e:?}")),
-            Client::Status(mut c) => {
-                let _ = c.send(&Pkt::StatusPing { payload: 9 });
-                match c.recv(T) {
-                    Ok(Pkt::StatusPong { payload: 9 }) => Ok(()),
-                    other => Err(format!("pong missing: {other:?}")),
-                }
-            }
-            Client::Login(mut c) => (|| {
-                let secret16: [u8; 16] = *b"net-shared-secre";
-                let (key, token, _) = c.enc_req.clone().ok_or("no encryption request")?;
-                let key = crate::refcrypto::RsaPub::from_spki_der(&key).ok_or("key")?;
-                let resp = Pkt::EncryptionResponse { secret: key.encrypt_pkcs1(&secret16, &[7]).unwrap(), token: key.encrypt_pkcs1(&token, &[7]).unwrap() };
-                c.send(&resp).map_err(|e| e.to_string())?;
-                c.enable_encryption(&secret16);
-                match c.recv(T) {
-                    Ok(Pkt::LoginSuccess { .. }) => {}
-                    other => return Err(format!("login success missing: {other:?}")),
-                }
-                finish_login(&mut c)?;
-                let due = Instant::now() + Duration::from_millis(case.discovery_ms);
-                last_backend_due = Some(last_backend_due.map_or(due, |d: Instant| d.max(due)));
-                await_transfer(&mut c)
-            })(),
-            Client::Waiting(mut c, since) => {
-                let due = since + Duration::from_millis(case.discovery_ms);
-                last_backend_due = Some(last_backend_due.map_or(due, |d: Instant| d.max(due)));
-                await_transfer(&mut c)
-            }
-        };
+    for (i, r, due) in results {
+        if let Some(d) = due {
+            last_backend_due = Some(last_backend_due.map_or(d, |x: Instant| x.max(d)));
+        }
         if let Err(e) = r {
             failure.get_or_insert(format!("in-flight client #{i} ({:?}): {e}", case.inflight[i]));
         }
@@ -223,7 +279,7 @@ fn decide(case: &Case, info: &mut CaseInfo) -> Verdict {
         if let Some(t) = *run.returned_at.lock().unwrap() {
             break Some(t);
         }
-        if t0.elapsed() > timeout + Duration::from_secs(3) {
+        if t0.elapsed() > 2 * timeout + Duration::from_secs(3) {
             break None;
         }
         std::thread::sleep(Duration::from_millis(2));
@@ -258,7 +314,10 @@ fn decide(case: &Case, info: &mut CaseInfo) -> Verdict {
             return Verdict::Fail { sig: "listen-returned-before-inflight-finished".into(), msg: format!("listen returned {:?} before the last in-flight backend call could complete", due - returned) };
         }
     }
-    if returned > cancelled_at + timeout + Duration::from_secs(2) {
+    if late_header {
+        info.class("proxy_header_completed_after_shutdown_request");
+    }
+    if returned > cancelled_at + 2 * timeout + Duration::from_secs(2) {
         return Verdict::Fail { sig: "listen-returned-late".into(), msg: format!("listen returned {:?} after the shutdown request", returned - cancelled_at) };
     }
     Verdict::Pass
@@ -273,9 +332,21 @@ impl Check for C17 {
         8
     }
     fn strategy(&self, _tier: Tier) -> BoxedStrategy<Case> {
-        let progress = prop_oneof![1 => Just(Progress::JustAccepted), 1 => Just(Progress::MidStatus), 2 => Just(Progress::MidLogin), 3 => Just(Progress::WaitingBackend)];
-        (50u64..300, proptest::collection::vec(progress, 0..=8), 1u8..=3, prop_oneof![3 => Just(0u32), 2 => 1u32..300, 1 => 300u32..5000], prop_oneof![2 => Just(1u8), 1 => 2u8..=4], prop_oneof![1 => Just(0u8), 2 => 1u8..=6])
-            .prop_map(|(discovery_ms, inflight, late, late_gap_us, workers, busy)| Case { discovery_ms, inflight, late, late_gap_us, workers, busy })
+        let progress = prop_oneof![2 => Just(Progress::JustAccepted), 2 => Just(Progress::MidStatus), 4 => Just(Progress::MidLogin), 6 => Just(Progress::WaitingBackend), 1 => (200u8..=255).prop_map(Progress::BeforeProxyHeader)];
+        (50u64..300, proptest::collection::vec(progress, 0..=8), 1u8..=3, prop_oneof![3 => Just(0u32), 2 => 1u32..300, 1 => 300u32..5000], prop_oneof![2 => Just(1u8), 1 => 2u8..=4], prop_oneof![1 => Just(0u8), 2 => 1u8..=6], prop::bool::weighted(0.4))
+            .prop_map(|(discovery_ms, mut inflight, late, late_gap_us, workers, busy, proxy)| {
+                // at most two clients with an outstanding header (each costs a second of real time)
+                let mut seen = 0;
+                inflight.retain(|p| {
+                    if matches!(p, Progress::BeforeProxyHeader(_)) {
+                        seen += 1;
+                        seen <= 2 && proxy
+                    } else {
+                        true
+                    }
+                });
+                Case { discovery_ms, inflight, late, late_gap_us, workers, busy, proxy }
+            })
             .boxed()
     }
     fn max_shrink_iters(&self) -> u32 {
